@@ -117,6 +117,9 @@ def run_unit(run_fn_factory, unit):
     if prefix is None:
         kids = root_and_children(run_fn, p, r, st, horizon=cfg.get("horizon", 4000))
         return st, kids, cfg, p, r
-    explore_subtree(run_fn, prefix, p, r, st, horizon=cfg.get("horizon", 4000))
+    try:
+        explore_subtree(run_fn, prefix, p, r, st, horizon=cfg.get("horizon", 4000))
+    except HarnessError as x:
+        raise HarnessError("%s [cfg=%r]" % (x, cfg))
     st.extra["executions_by_config"] = {cfg_key(cfg): st.executions}
     return st, [], cfg, p, r
